@@ -94,7 +94,7 @@ def run(ctx, n=None):
         parts = gen.split_config(ctx.rng, cfg, k)
         single = runsc.run_scenario(ctx, {"name": "single", "files": {"cfg/all.yaml": gen.yaml_doc(cfg)}, "patterns": ["cfg/all.yaml"], "out": "out/gen.go", "flags": {}}, with_model=False)
         # files spread over two patterns; names make glob order differ from lexical order of the cleaned paths ("a" vs "a-b")
-        dirs = ["a", "a-b", "a.c", "b"]
+        dirs = ["a", "a-b", "a.c", "b", "B", "Z_", "_y"]      # byte-wise order: upper case before "_" before lower case
         names = {}
         order = []
         for j, p in enumerate(parts):
@@ -108,7 +108,7 @@ def run(ctx, n=None):
         # the empty file is the identity of merging, through the real read path too: an empty file, a file holding only a
         # comment, an explicit empty document / empty mapping — first, in the middle and last in read order
         empties = ["", "# nothing here yet\n", "---\n", "{}\n", "\n\n"]
-        files["cfg/%s/%s.yaml" % (dirs[i % 4], ["000", "p00x", "zzz"][i % 3])] = empties[i % len(empties)]
+        files["cfg/%s/%s.yaml" % (dirs[i % len(dirs)], ["000", "p00x", "zzz"][i % 3])] = empties[i % len(empties)]
         if i % 2:
             files["cfg/b/zzzz.yaml"] = empties[(i + 2) % len(empties)]
         multi = runsc.run_scenario(ctx, {"name": "split", "files": files, "patterns": pat, "out": "out/gen.go", "flags": {}}, with_model=(i < 4))
@@ -125,6 +125,10 @@ def run(ctx, n=None):
         ("cfg/a/x.yaml", "cfg/a-b/x.yaml", ["cfg/*/x.yaml"], "a"),          # lexical: cfg/a-b/x.yaml < cfg/a/x.yaml, so `a` is read last and wins
         ("cfg/1.yaml", "cfg/2.yaml", ["cfg/2.yaml", "cfg/1.yaml"], "a"),      # pattern order beats names: 1.yaml read last
         ("cfg/1.yaml", "cfg/2.yaml", ["cfg/*.yaml"], "b"),
+        ("cfg/app.yaml", "cfg/Logging.yaml", ["cfg/*.yaml"], "a"),              # byte-wise: "L" < "a" — not case-insensitive
+        ("cfg/Zeta.yaml", "cfg/_base.yaml", ["cfg/*.yaml"], "b"),               # "Z" < "_"
+        ("cfg/x10.yaml", "cfg/x9.yaml", ["cfg/*.yaml"], "b"),                   # not a numeric order: "x10" < "x9"
+        ("cfg/\u00e9.yaml", "cfg/z.yaml", ["cfg/*.yaml"], "a"),                  # bytes of UTF-8, not collation: "z" < "é"
     ]:
         files = {fa: gen.yaml_doc({"meta": {"pkg": "gen"}, "parameters": {"who": "a"}}), fb: gen.yaml_doc({"parameters": {"who": "b"}})}
         r = runsc.run_scenario(ctx, {"name": "order", "files": files, "patterns": pats, "out": "out/gen.go", "flags": {}}, with_model=True)
